@@ -91,3 +91,26 @@ pub fn sweep_all() -> Option<u32> {
     }
     bad
 }
+
+/// thorough only: one entry whose value is 2^28 bytes long (five-byte length prefix) through the
+/// real writer and reader; implementation only (a 268 MB list is beyond the executable model, the
+/// theorem C14_entry covers it)
+pub fn big_entry() -> Result<(), String> {
+    use grenad::{Reader, Writer};
+    let n = 1usize << 28;
+    let val = vec![0xA5u8; n];
+    let mut w = Writer::memory();
+    w.insert(b"k", &val).map_err(|e| e.to_string())?;
+    w.insert(b"l", b"x").map_err(|e| e.to_string())?;
+    let file = w.into_inner().map_err(|e| e.to_string())?;
+    drop(val);
+    let mut c = Reader::new(std::io::Cursor::new(file)).map_err(|e| e.to_string())?.into_cursor().map_err(|e| e.to_string())?;
+    match c.move_on_next().map_err(|e| e.to_string())? {
+        Some((k, v)) if k == b"k" && v.len() == n && v.iter().all(|b| *b == 0xA5) => {}
+        other => return Err(format!("first entry wrong: {:?}", other.map(|(k, v)| (k.to_vec(), v.len())))),
+    }
+    match c.move_on_next().map_err(|e| e.to_string())? {
+        Some((k, v)) if k == b"l" && v == b"x" => Ok(()),
+        other => Err(format!("second entry wrong: {:?}", other.map(|(k, v)| (k.to_vec(), v.len())))),
+    }
+}
